@@ -931,6 +931,18 @@ def run(ctx, only=None):
             continue
         ljobs.append((text + '\n', '<p>' + code_lines_html(text) + '</p>\n'))
         ctx.count('code_run_paragraphs_of_several_lines')
+    # fenced code whose CONTENT has lines that would close the block if they stood less deep: fence characters behind four or more spaces,
+    # a shorter run, a run with text behind it, lines of spaces only - all of it is content, word for word
+    for _ in range(300 if ctx.quick() else 6000):
+        chf = rng.choice('`~')
+        nf = rng.randint(3, 4)
+        body = [rng.choice(['first', 'last', '    ' + chf * nf, '     ' + chf * (nf + 1), '    ' + chf * (nf + 2), chf * (nf - 1), '   ' + chf * (nf - 1), chf * nf + ' x' if chf == '~' else 'x ' + chf * nf,
+                            '    ', '  ', '', '\tx', '    ' + ('~' if chf == '`' else '`') * nf, ('~' if chf == '`' else '`') * nf])
+                for _b in range(rng.randint(1, 5))]
+        closer = rng.choice(['', ' ', '  ', '   ']) + chf * rng.randint(nf, nf + 1) + rng.choice(['', ' '])
+        text = chf * nf + '\n' + ''.join(l + '\n' for l in body) + closer + '\n' + 'after\n'
+        ljobs.append((text, '<pre><code>' + html_mod.escape(''.join(l + '\n' for l in body), quote=False) + '</code></pre>\n<p>after</p>\n'))
+        ctx.count('fences_with_fence_like_content')
     with mp.Pool(core.NPROC) as pool:
         lres = pool.map(markdown_worker, [t for t, _ in ljobs], chunksize=50)
     for (text, want), got in zip(ljobs, lres):
